@@ -45,6 +45,26 @@ Theorem C09 : forall n qc h,
 Proof. exact fixed_thm. Qed.
 Print Assumptions C09.
 
+(* "Flush error exits recycle the outgoing chain" - for EVERY exit of Flush: whatever Flush returns (nil,
+   ErrStreamClosed for a stream that is not open, ErrQueueFull after the retries, or the result of the socket send
+   of the fallback path - ErrConnectionWriteTimeout with the session still alive included, because writeFallback
+   recycles BEFORE it sends and independently of the send's outcome) the flushing stream's send buffer holds no
+   slice afterwards ... *)
+Theorem C09_flush_leaves_no_slice : forall e sid sizes wpos s,
+  0 < sumz sizes -> sendb (streams (do_flush e sid sizes wpos s) (key e sid)) = [].
+Proof. exact flush_leaves_no_slice. Qed.
+Print Assumptions C09_flush_leaves_no_slice.
+
+(* ... and on every exit that does not hand the chain to the peer (stream not open / fallback / queue full) every
+   slice of the send buffer is back in the free lists *)
+Theorem C09_flush_error_exits_recycle : forall e sid sizes wpos s x,
+  0 < sumz sizes ->
+  (let v := streams s (key e sid) in
+   negb (is_open v) || (sheap v || infb v) || (Z.of_nat (length (queue_to (negb e) s)) >=? qcap s)) = true ->
+  In x (sendb (streams s (key e sid))) -> In x (free (do_flush e sid sizes wpos s)).
+Proof. exact flush_error_exits_recycle. Qed.
+Print Assumptions C09_flush_error_exits_recycle.
+
 (* for either variant of recycle(): nothing is lost in any history in which each Close finds an empty
    pinned list (ReleasePreviousRead before Close); with the switch on, the hypothesis is void *)
 Theorem C09_either_variant : forall f g n qc h,
